@@ -2069,6 +2069,15 @@ func roundDecimal(num float64, precision int, method string) float64 {
 		return num
 	}
 
+	// A float64 has no digits beyond these bounds: a larger precision leaves every
+	// value as it is and a smaller one rounds every value alike, while 10^precision
+	// would take time and memory proportional to the number written in the template
+	if precision > 1100 {
+		precision = 1100
+	} else if precision < -400 {
+		precision = -400
+	}
+
 	// scale = 10^precision (a fraction for a negative precision)
 	pow := new(big.Int).Exp(big.NewInt(10), big.NewInt(int64(precision)).Abs(big.NewInt(int64(precision))), nil)
 	scale := new(big.Rat).SetInt(pow)
